@@ -262,7 +262,13 @@ func Run(root string, inv *Invocation) (*Outcome, error) {
 			if in.When != "" {
 				spec += ":when=" + in.When
 			}
-			args = append(args, "-P", p, "-e", spec)
+			args = append(args, "-P", p)
+			if in.Syscall == "openat" {
+				// os.Root opens component by component relative to a
+				// directory descriptor: the name the kernel sees is the base name
+				args = append(args, "-P", filepath.Base(p))
+			}
+			args = append(args, "-e", spec)
 		}
 		args = append(args, "--")
 	}
